@@ -302,6 +302,9 @@ func c04Scenario(c *Ctx, ps *c04PS, cfg c04KeyCfg, heavy bool) {
 		if c04BothDomains {
 			isNTT = rep == 0
 		}
+		if c04ForceLvl >= 0 && c04ForceLvl <= cfg.lq {
+			lvl = c04ForceLvl
+		}
 		mode := 0
 		if c.rng.Intn(3) == 0 {
 			mode = 1 + c.rng.Intn(4)
@@ -329,6 +332,9 @@ func c04Scenario(c *Ctx, ps *c04PS, cfg c04KeyCfg, heavy bool) {
 			if res != "err" && res != "panic" {
 				c04ProbeNoise(c, ps, "keyswitch_decrypts", pargs, out, sk2, m, bound, class)
 			}
+			c04Recycled(c, ps, c04RecycleSpec{op: "apply", args: pargs, lvl: lvl, fresh: res, degs: []int{1},
+				run:    func(o *rlwe.Ciphertext) error { return eval.ApplyEvaluationKey(ct, evk, o) },
+				tieLow: func(lo int, r string) { c04EmitKs(c, ps, cfg, "apply", ps.ksLine("apply", cfg, isNTT, 0, 0, evk, c04Trunc(in, lo)), r) }}, isNTT)
 			// direct GadgetProduct / GadgetProductLazy on c1
 			if rep == 0 {
 				c04GadgetProductTies(c, ps, eval, cfg, isNTT, evk, ct)
@@ -351,6 +357,11 @@ func c04Scenario(c *Ctx, ps *c04PS, cfg c04KeyCfg, heavy bool) {
 			if res != "err" && res != "panic" {
 				c04ProbeNoise(c, ps, "relin_decrypts", pargs, out, sk, m, bound, class)
 			}
+			c04Recycled(c, ps, c04RecycleSpec{op: "relin", args: pargs, lvl: lvl, fresh: res, degs: []int{1, 2},
+				run: func(o *rlwe.Ciphertext) error { return eval.Relinearize(ct, o) },
+				tieLow: func(lo int, r string) {
+					c04EmitKs(c, ps, cfg, "relin", ps.ksLine("relin", cfg, isNTT, 0, 0, &rlk.EvaluationKey, c04Trunc(in, lo)), r)
+				}}, isNTT)
 		}
 
 		// ---- Automorphisms
@@ -370,6 +381,11 @@ func c04Scenario(c *Ctx, ps *c04PS, cfg c04KeyCfg, heavy bool) {
 			if res != "err" && res != "panic" {
 				c04ProbeNoise(c, ps, "automorphism_decrypts", fmt.Sprintf("%s galEl=%d", pargs, g), out, sk, want, bound, class)
 			}
+			c04Recycled(c, ps, c04RecycleSpec{op: "aut", args: fmt.Sprintf("%s galEl=%d", pargs, g), lvl: lvl, fresh: res, degs: []int{1},
+				run: func(o *rlwe.Ciphertext) error { return eval.Automorphism(ct, g, o) },
+				tieLow: func(lo int, r string) {
+					c04EmitKs(c, ps, cfg, "aut", ps.ksLine("aut", cfg, isNTT, g, 0, &gks[gi].EvaluationKey, c04Trunc(in, lo)), r)
+				}}, isNTT)
 
 			// hoisted variants (the code supports them only for BaseTwoDecomposition == 0 and with a P)
 			if cfg.w == 0 && cfg.lp >= 0 {
@@ -389,6 +405,11 @@ func c04Scenario(c *Ctx, ps *c04PS, cfg c04KeyCfg, heavy bool) {
 					detail = "hoisted output differs from plain output"
 				}
 				c.Probe("hoisted_eq_plain", fmt.Sprintf("%s galEl=%d", pargs, g), "C04-hoisted-neq-plain", detail)
+				c04Recycled(c, ps, c04RecycleSpec{op: "auth", args: fmt.Sprintf("%s galEl=%d", pargs, g), lvl: lvl, fresh: resH, degs: []int{1}, explicit: true,
+					run: func(o *rlwe.Ciphertext) error {
+						eval.DecomposeNTT(lvl, cfg.lp, nbPi, ct.Value[1], ct.IsNTT, eval.BuffDecompQP)
+						return eval.AutomorphismHoisted(lvl, ct, eval.BuffDecompQP, g, o)
+					}}, isNTT)
 
 				// lazy: result modulo QP, scaled by P. The receiver may be allocated at a HIGHER LevelP than the
 				// key's (as ckks.RotateHoistedLazyNew, lintrans and inner sum do): only the key's levelP counts.
@@ -424,6 +445,32 @@ func c04Scenario(c *Ctx, ps *c04PS, cfg c04KeyCfg, heavy bool) {
 					if resM != "err" && resM != "panic" {
 						c04ProbeNoise(c, ps, "automorphism_lazy_decrypts", fmt.Sprintf("%s galEl=%d recvLP=%d", pargs, g, rp), outM, sk, want, bound, class)
 					}
+					// the same into a junk-filled ctQP at higher LevelQ / LevelP, then ModDown into a junk receiver
+					if resM != "err" && resM != "panic" {
+						hq := lvl + c.rng.Intn(len(ps.Q)-lvl)
+						hp := cfg.lp + c.rng.Intn(len(ps.P)-cfg.lp)
+						j := &rlwe.Element[ringqp.Poly]{}
+						j.Value = []ringqp.Poly{ps.c04JunkQP(c, hq, hp), ps.c04JunkQP(c, hq, hp)}
+						j.MetaData = ct.MetaData.CopyNew()
+						var gotL string
+						c04Recycled(c, ps, c04RecycleSpec{op: "autlmd", args: fmt.Sprintf("%s galEl=%d junkQP=%d,%d", pargs, g, hq, hp), lvl: lvl, fresh: resM, degs: []int{1}, noResize: true,
+							run: func(o *rlwe.Ciphertext) error {
+								eval.DecomposeNTT(lvl, cfg.lp, nbPi, ct.Value[1], ct.IsNTT, eval.BuffDecompQP)
+								if err := eval.AutomorphismHoistedLazy(lvl, ct, eval.BuffDecompQP, g, j); err != nil {
+									return err
+								}
+								gotL = c04Polys([][][]uint64{ps.canonQP(j.Value[0], lvl, cfg.lp, isNTT, false), ps.canonQP(j.Value[1], lvl, cfg.lp, isNTT, false)})
+								eval.ModDown(lvl, cfg.lp, j, o)
+								return nil
+							}}, isNTT)
+						if gotL != "" {
+							d := ""
+							if gotL != resL {
+								d = "lazy result in a junk receiver differs from the fresh-receiver result"
+							}
+							c.Probe("receiver_recycled", fmt.Sprintf("autl junkQP=%d,%d %s galEl=%d", hq, hp, pargs, g), "C04-recycled-receiver-autl", d)
+						}
+					}
 				}
 			}
 		}
@@ -441,6 +488,32 @@ func c04GadgetProductTies(c *Ctx, ps *c04PS, eval *rlwe.Evaluator, cfg c04KeyCfg
 	})
 	c04EmitKs(c, ps, cfg, "gp", ps.ksLine("gp", cfg, isNTT, 0, 0, evk, in), res)
 	c.Count("ks:gp")
+	gargs := fmt.Sprintf("%s %d %d %d lvl=%d ntt=%s", ps.hdr(), cfg.lq, cfg.lp, cfg.w, lvl, c04B2s(isNTT))
+	c04Recycled(c, ps, c04RecycleSpec{op: "gp", args: gargs, lvl: lvl, fresh: res, degs: []int{1}, noResize: true,
+		run: func(o *rlwe.Ciphertext) error { eval.GadgetProduct(lvl, ct.Value[1], &evk.GadgetCiphertext, o); return nil }}, isNTT)
+	// lazy receivers (mod QP) filled with junk, at a higher LevelQ / LevelP
+	junkQP := func(op string, fresh string, run func(q *rlwe.Element[ringqp.Poly]) error) {
+		if cfg.lp < 0 || fresh == "err" || fresh == "panic" {
+			return
+		}
+		hq := lvl + c.rng.Intn(len(ps.Q)-lvl)
+		hp := cfg.lp + c.rng.Intn(len(ps.P)-cfg.lp)
+		j := &rlwe.Element[ringqp.Poly]{}
+		j.Value = []ringqp.Poly{ps.c04JunkQP(c, hq, hp), ps.c04JunkQP(c, hq, hp)}
+		j.MetaData = ct.MetaData.CopyNew()
+		got := Try(func() string {
+			if err := run(j); err != nil {
+				return "err"
+			}
+			return c04Polys([][][]uint64{ps.canonQP(j.Value[0], lvl, cfg.lp, isNTT, false), ps.canonQP(j.Value[1], lvl, cfg.lp, isNTT, false)})
+		})
+		d := ""
+		if got != fresh {
+			d = "result in a junk receiver differs from the fresh-receiver result"
+		}
+		c.Probe("receiver_recycled", fmt.Sprintf("%s junkQP=%d,%d %s", op, hq, hp, gargs), "C04-recycled-receiver-"+op, d)
+		c.Count("recycled:" + op)
+	}
 
 	if cfg.lp >= 0 {
 		ctQP := &rlwe.Element[ringqp.Poly]{}
@@ -456,6 +529,9 @@ func c04GadgetProductTies(c *Ctx, ps *c04PS, eval *rlwe.Evaluator, cfg c04KeyCfg
 		})
 		c04EmitKs(c, ps, cfg, "gpl", ps.ksLine("gpl", cfg, isNTT, 0, 0, evk, in), resL)
 		c.Count("ks:gpl")
+		junkQP("gpl", resL, func(q *rlwe.Element[ringqp.Poly]) error {
+			return eval.GadgetProductLazy(lvl, ct.Value[1], &evk.GadgetCiphertext, q)
+		})
 	}
 
 	// hoisted products on the digits of DecomposeNTT; the lazy receiver at a LevelP >= the key's
@@ -470,6 +546,12 @@ func c04GadgetProductTies(c *Ctx, ps *c04PS, eval *rlwe.Evaluator, cfg c04KeyCfg
 		})
 		c04EmitKs(c, ps, cfg, "gph", ps.ksLine("gph", cfg, isNTT, 0, nbPi, evk, in), resH)
 		c.Count("ks:gph")
+		c04Recycled(c, ps, c04RecycleSpec{op: "gph", args: gargs, lvl: lvl, fresh: resH, degs: []int{1}, noResize: true,
+			run: func(o *rlwe.Ciphertext) error {
+				eval.DecomposeNTT(lvl, cfg.lp, nbPi, ct.Value[1], isNTT, eval.BuffDecompQP)
+				eval.GadgetProductHoisted(lvl, eval.BuffDecompQP, &evk.GadgetCiphertext, o)
+				return nil
+			}}, isNTT)
 		detail := ""
 		if resH != res {
 			detail = "GadgetProductHoisted differs from GadgetProduct"
@@ -494,6 +576,10 @@ func c04GadgetProductTies(c *Ctx, ps *c04PS, eval *rlwe.Evaluator, cfg c04KeyCfg
 		})
 		c04EmitKs(c, ps, cfg, "gphl", ps.ksLine("gphl", cfg, isNTT, 0, nbPi, evk, in), resHL)
 		c.Count("ks:gphl")
+		junkQP("gphl", resHL, func(q *rlwe.Element[ringqp.Poly]) error {
+			eval.DecomposeNTT(lvl, cfg.lp, nbPi, ct.Value[1], isNTT, eval.BuffDecompQP)
+			return eval.GadgetProductHoistedLazy(lvl, eval.BuffDecompQP, &evk.GadgetCiphertext, q)
+		})
 	}
 }
 
@@ -545,6 +631,7 @@ func genC04(c *Ctx) {
 	c04Witness(c)
 	c04LargePrimes(c)
 	c04HoistedLevels(c)
+	c04RecycleLevels(c)
 	c04Malformed(c)
 	c04DegreeSwitch(c)
 	c04Packing(c)
